@@ -25,6 +25,31 @@ VARS = ["x", "y", "z"]
 
 HERE = os.path.dirname(os.path.dirname(os.path.abspath(__file__)))
 
+# (rel_tol, abs_tol) given in the pattern; None = the default of pattern.Constant (1e-5, 1e-8)
+TOLERANCES = [(None, None), (None, None), (1e-3, None), (None, 0.5), (1e-2, 1e-4), (1e-9, 0.05), (None, 1e-4)]
+
+
+def boundary_values(c, rel, abs_):
+    """float32 host constants on both sides of the tolerance around c, in the relative and in the absolute regime:
+    c +- f * t for f in {0.5, 0.8, 1.25, 2} and t in {rel*|c|, abs} -- and the same with the two tolerances read in
+    each other's role (rel as an absolute bound, abs*|c|), so that a mix-up of the two is on a different side.
+    Values closer than 3% to the effective bound are left out (float32 storage / double rounding)."""
+    import numpy as np
+    rel = 1e-5 if rel is None else rel
+    abs_ = 1e-8 if abs_ is None else abs_
+    scales = sorted({t for t in (rel * abs(c), abs_, rel, abs_ * abs(c)) if t > 0})
+    out = [float(np.float32(c))]
+    for t in scales:
+        for f in (0.5, 0.8, 1.25, 2.0):
+            for sgn in (1, -1):
+                v = float(np.float32(c + sgn * f * t))
+                eff = max(rel * max(abs(c), abs(v)), abs_)
+                if eff > 0 and 0.97 < abs(v - c) / eff < 1.03:
+                    continue
+                if v not in out:
+                    out.append(v)
+    return out
+
 
 # ----------------------------------------------------------------------------- corpus
 
@@ -70,8 +95,8 @@ class PatGen:
             return ["out", j, rng.randrange(self.nout(j))]
         r = rng.random()
         if "const" in self.feats and r < 0.2:
-            c = rng.choice([1.0, 0.0, 2.0, [1.0, 2.0]])
-            tol = rng.choice([(None, None), (None, None), (1e-3, None), (None, 0.5)])
+            c = rng.choice([1.0, 0.0, 2.0, 1000.0, -2500.0, [1.0, 2.0]])
+            tol = rng.choice(TOLERANCES)
             return ["const", c, tol[0], tol[1]]
         if "any" in self.feats and r < 0.3:
             return ["any"]
@@ -210,6 +235,8 @@ class Inst:
             delta = rng.choice([0.0, 0.0, 1e-6, 1e-9, 1e-2, 0.25, 1.0, -1e-6]) if self.perturb else 0.0
             if self.hit(0.1):
                 return self.new_const(rng.choice(["other", [c]]))
+            if self.perturb and rng.random() < 0.5:
+                return self.new_const(rng.choice(boundary_values(c, d[2], d[3])))     # either side of the tolerance
             return self.new_const(c + delta)
         if k == "out":
             n = self.node(d[1])
@@ -388,6 +415,7 @@ def commutable(pdesc):
 def cases(ctx):
     rng = ctx.rng
     yield from corpus()
+    yield from const_family(ctx)
     yield from sweep(ctx)
     if ctx.tier == "quick":
         n_pat, hosts = 200, (1, 4, 1)
@@ -615,6 +643,48 @@ def _feature_key(p):
         f.add("or:" + ",".join(a[0] for a in o["alts"]) + (":tag" if o.get("tagv") else "") + (":name" if o.get("name") else ""))
     f.add("nout:%d" % len(p["outs"]))
     return "|".join(sorted(f))
+
+
+def const_family(ctx):
+    """Constant patterns against host constants on both sides of the stated tolerance, the constant as first and as
+    second operand, with and without commute=True."""
+    rng = ctx.rng
+    X = ["var", "x"]
+    pats = []
+    for c in (0.0, 1.0, 1000.0, -2500.0, 1e-3):
+        for rel, abs_ in [(None, None), (1e-3, None), (None, 1e-4), (1e-2, 1e-6), (1e-9, 0.05), (0.0, 1e-6)]:
+            K = ["const", c, rel, abs_]
+            for op in ("Add", "Mul", "Sub"):
+                pats.append((_pat([{"op": op, "ins": [X, K]}]), c, rel, abs_))
+                pats.append((_pat([{"op": op, "ins": [K, X]}]), c, rel, abs_))
+            pats.append((_pat([{"op": "Relu", "ins": [X]}, {"op": "Add", "ins": [["out", 0, 0], K]}]), c, rel, abs_))
+    pats.append((_pat([{"op": "Add", "ins": [X, ["const", [0.0, 1000.0], None, None]]}]), None, None, None))
+    if ctx.tier == "quick":
+        pats = rng.sample(pats, 40)
+    for p, c, rel, abs_ in pats:
+        root_op = p["nodes"][-1]["op"]
+        if c is None:
+            vals = [[0.0, 1000.0], [5e-9, 1000.008], [2e-8, 1000.0], [0.0, 1000.0125], [5e-6, 1000.0]]
+        else:
+            vals = boundary_values(c, rel, abs_)
+            if ctx.tier == "quick":
+                vals = vals[:1] + rng.sample(vals[1:], min(len(vals) - 1, 10))
+        hosts = []
+        for v in vals:
+            for order in ((0, 1), (1, 0)):
+                ins = [[0, 2][k] for k in order]
+                if len(p["nodes"]) == 2:
+                    nodes = [{"op": "Relu", "dom": "", "attrs": [], "ins": [0], "outs": [3]},
+                             {"op": root_op, "dom": "", "attrs": [], "ins": [[3, 2][k] for k in order], "outs": [4]}]
+                    outs = [4]
+                else:
+                    nodes = [{"op": root_op, "dom": "", "attrs": [], "ins": ins, "outs": [3]}]
+                    outs = [3]
+                hosts.append({"nodes": nodes, "inputs": [0], "outs": outs, "consts": {"2": v}})
+        for h in hosts:
+            yield p, h, False, "const-boundary", {"coq_rate": 0.5}
+            if commutable(p):
+                yield p, h, True, "const-boundary-commute", {"coq_rate": 0.5}
 
 
 def sweep(ctx):
